@@ -66,6 +66,11 @@ def wild_cases(ck, tier, seed, tmp):
                 rules.append({"pre": w["pre"], "ctx": [rng.randrange(len(CLS)) for _ in range(w["pre"] + 1)], "con": b"",
                               "act": bytes([28, rng.randrange(len(CLS)), 25, 49])})
             passes.append({"kind": "sub", "maxloop": rng.choice([1, 2, 5]), "rules": rules})
+            if 31 in opcodes(w["code"]) and rng.random() < 0.6:
+                # the same inserting pass several times over: only the segment-wide insert budget (64 x the number
+                # of characters) stands between such a font and unbounded growth
+                for _ in range(rng.choice([2, 3, 4])):
+                    passes.append({"kind": "sub", "maxloop": 5, "rules": [wild]})
             if rng.random() < 0.5:
                 passes.append({"kind": "pos", "maxloop": 3, "rules": [{"pre": 0, "ctx": [rng.randrange(len(CLS)), 3], "con": b"",
                                                                      "act": bytes([25, 1, 255, 38, 2, 1, 20, 35, 3, 25, 49])}]})
